@@ -197,6 +197,10 @@ class C17(PropCheck):
             k = rng.choice(["mod", "builtin", "both"])
             out.append({"k": "nested", "mods": [[0, rng.random() < 0.5, True, False, False], [1, k in ("mod", "both"), k in ("builtin", "both"), False, False]],
                         "via": rng.choice(["unwrap", "elaborate"])})
+        # built-in glue registered for a module that is already loaded (what happens at `import stackscope`)
+        for own in (True, False):
+            for raises in (False, True):
+                out.append({"k": "late_register", "own_glue": own, "raises": raises, "mods": []})
         # the F16 shape: a module with both kinds of glue vanishes during the scan and comes back
         out.append({"k": "seq", "mods": [[0, False, False, False, False], [1, True, True, False, False], [2, False, False, False, False]],
                     "ops": [["insert", 0], ["insert", 1], ["extractR", [1]], ["insert", 1], ["insert", 2], ["extract"]]})
@@ -240,6 +244,8 @@ class C17(PropCheck):
             return " ".join(lab.log)
         if case["k"] == "nested":
             return self.run_nested(case)
+        if case["k"] == "late_register":
+            return self.run_late_register(case)
         # ---- concurrent ----
         mods = case["mods"]
         for m, *_ in mods:
@@ -279,6 +285,30 @@ class C17(PropCheck):
         results["log_at_block"] = snapshot
         results["all_done"] = all(d.is_set() for d in done)
         return results
+
+    def run_late_register(self, case):
+        """The module is loaded first, then its built-in glue is registered, then an extraction happens."""
+        lab = self.lab
+        name = lab.name(77)
+        rec: List[str] = []
+        mod = types.ModuleType(name)
+        if case["own_glue"]:
+            mod._stackscope_install_glue_ = lambda: rec.append("mod")
+        sys.modules[name] = mod
+        try:
+            lab.gl.builtin_glue_pending.pop(name, None)
+
+            def bfn():
+                rec.append("builtin")
+
+            lab.gl.builtin_glue(name)(bfn)
+            at_registration = list(rec)
+            lab.extract()
+            lab.extract()
+        finally:
+            sys.modules.pop(name, None)
+            lab.gl.builtin_glue_pending.pop(name, None)
+        return {"log": rec, "late_register": True, "at_registration": at_registration, "error": None}
 
     def run_nested(self, case):
         """Module 1 appears in sys.modules during an outer extraction (a hook imports it lazily); the same hook then makes a
@@ -328,6 +358,12 @@ class C17(PropCheck):
     def oracle(self, case, real):
         mods = {m[0]: m for m in case["mods"]}
         log = real.split() if isinstance(real, str) else real.get("log", [])
+        if isinstance(real, dict) and real.get("late_register"):
+            want = ["mod"] if case["own_glue"] else ["builtin"]
+            if real["log"] != want:
+                return (f"module loaded before its built-in glue was registered (own glue: {case['own_glue']}): glue calls {real['log']} "
+                        f"(at registration: {real['at_registration']}), expected {want}")
+            return None
         if isinstance(real, dict) and real.get("nested_case"):
             if real.get("error"):
                 return f"outer extraction reported {real['error']}"
